@@ -125,3 +125,18 @@
         assert(sk_vecs_are(bsk2@, e, K as int, L as int, vec_ints(s1), vec_ints(s2), t0));
         lemma_sk_bytes_unique(bsk@, bsk2@, e, K as int, L as int);
     }
+    // C02: the verification decision is a function of the public-key BYTES, the formatted message and the signature: two structs deserialised
+    // from (related to) the same byte string give the same result
+    pub proof fn lemma_c02_fn_of_bytes_api(pkb: [u8; PK_LEN], pk: PublicKey, pk2: PublicKey, message: Seq<u8>, ctx: Seq<u8>, oid: Seq<u8>, phm: Seq<u8>,
+            sig: [u8; SIG_LEN], res: bool, res2: bool)
+        requires PublicKey::sd_from_post(pkb, &pk), PublicKey::sd_from_post(pkb, &pk2),
+            pk.verify_rel(message, ctx, oid, phm, sig, res), pk2.verify_rel(message, ctx, oid, phm, sig, res2),
+        ensures res == res2,
+    {
+        lemma_params();
+        lemma_pk_rel_coefs(pk, pkb@); lemma_pk_rel_coefs(pk2, pkb@);
+        let mu = spec_mu(pk.tr@, message, ctx, oid, phm, false);
+        assert(pk.tr@ == pk2.tr@);
+        lemma_verify_spec_indep(res, pk, pk2, pk_t1_vec(pkb@, K as int), mu, sig@, BETA as int, GAMMA1 as int, GAMMA2 as int, OMEGA as int, TAU as int, LAMBDA_DIV4 as int);
+        lemma_verify_spec_det(res, res2, pk2, mu, sig@, BETA as int, GAMMA1 as int, GAMMA2 as int, OMEGA as int, TAU as int, LAMBDA_DIV4 as int);
+    }
